@@ -107,7 +107,14 @@ class BaseTcpTunnelHandler(BaseTcpServerHandler[TcpClientConnection]):
             self.work.queue(data)
         if self.upstream and not self.upstream.closed and \
                 self.upstream.connection.fileno() in writables:
-            self.upstream.flush(self.flags.max_sendbuf_size)
+            try:
+                self.upstream.flush(self.flags.max_sendbuf_size)
+            except (BrokenPipeError, ConnectionResetError):
+                # Server no longer accepts data.  What it sent before
+                # is still read, until it signals end of stream.
+                logger.debug('Server stopped receiving, dropping buffer')
+                self.upstream.buffer = []
+                self.upstream._num_buffer = 0
         return False
 
     def connect_upstream(self) -> None:
